@@ -12,6 +12,7 @@ CONSTANTS
   Known = {}
   SpinTopics = {}
   BufCap = 1
+  RespCap = 1
   WithIndexer = FALSE
   MaxHeaders = 0
 INVARIANTS NoCrash NoLostTopic LockInv NoLeakedPublisher TopicAgreement
